@@ -58,3 +58,18 @@ Print Assumptions C02_grow_copies.
 Print Assumptions C02_frame.
 Print Assumptions C02_alloc_copies_nothing.
 Print Assumptions C02_dealloc_copies_nothing.
+
+(* ---------- the source tie: how /repo places values (pinned statements of lib.rs, re-checked on every
+   run): alloc_with writes f()'s result once into the reserved slot; alloc_slice_copy copies exactly
+   src.len() elements from src; alloc_slice_clone and the fill methods write index i with the i-th
+   clone / f(i) / the iterator's next item, for i = 0, 1, .. in order, one call per index;
+   alloc_str copies the bytes ---------- *)
+From BV Require Import RustSem LeafActual LeafActualOk.
+From Coq Require Import String.
+Theorem C02_source_frames :
+  Forall (fun n => lookup n src_frames = Some true)
+    ["alloc_with_writes_result_once"; "alloc_with_inner_writer"; "slice_copy_copies_len_elements";
+     "slice_clone_in_order"; "alloc_str_copies_bytes"; "slice_fill_in_index_order";
+     "try_slice_fill_in_index_order"; "slice_fill_iter_takes_next_per_index"]%string.
+Proof. repeat (constructor; [vm_compute; reflexivity|]). constructor. Qed.
+Print Assumptions C02_source_frames.
